@@ -107,3 +107,19 @@ def shrink_tier(t):
             t2["entries"] = [list(x) for x in t["entries"]]
             t2["entries"][k][-1] = "a"
             yield t2
+
+
+def near_ok(*tiers_and_entries):
+    """On the grid of binary64 neighbours two distinct points one ulp apart that carry the same label are
+    equal for praatio's tolerant entry comparison (Point.__eq__, used by list.index in deleteEntry); such
+    inputs are outside the modelled domain.  True when no such pair occurs among the given point entries."""
+    seen = {}
+    for ents in tiers_and_entries:
+        for e in ents:
+            if len(e) != 2:
+                continue
+            key = (e[0] // 2, e[1])
+            if key in seen and seen[key] != e[0]:
+                return False
+            seen[key] = e[0]
+    return True
